@@ -105,7 +105,9 @@ def main(argv=None):
             tasks.append((prop, ui, c, a.tier, repo))
     ctx = mp.get_context("fork")
     if a.jobs > 1 and len(tasks) > 1:
-        with ctx.Pool(min(a.jobs, len(tasks))) as pool:
+        # one fresh fork of this (unit-free) process per task: a unit's queries never depend on which units ran before it
+        # in the same worker (Σ-symbol registry, term caches, fresh-name counters)
+        with ctx.Pool(min(a.jobs, len(tasks)), maxtasksperchild=1) as pool:
             results = pool.map(_task, tasks, chunksize=1)
     else:
         results = [_task(t) for t in tasks]
